@@ -160,6 +160,9 @@ def global_ctx(filename):
     _global_ctx._current_file = None
 
 
+_encoded_metadata_regex = re.compile(r'80[0-9a-f]+') # a hex-encoded pickle, see _encode_metadata
+
+
 def _encode_metadata(metadata):
     return pickle.dumps(metadata).hex()
 
@@ -419,6 +422,9 @@ def _path_constructor(loader, tag_suffix, node):
         raise ValueError(f'Invalid path tag: !path:{tag_suffix}')
 
     ref_point, metadata = pad_with_none(*tag_suffix.rsplit(':', maxsplit=1), minlen=2)
+    if metadata is None and _encoded_metadata_regex.fullmatch(ref_point):
+        # metadata only, no reference point: ``!path{{ ... }}``, also what dump writes for such a node
+        ref_point, metadata = None, ref_point
     kwargs = _decode_metadata(metadata)
     return _make_node(loader, node, node_type=PathNode, kwargs={ 'ref_point': ref_point, **kwargs }, dict_is_data=False)
 
